@@ -195,8 +195,8 @@ def make_jobs(tier, seed, build):
     nmax = 3 if tier == "quick" else 4
     for gname in GRAMMARS:
         g = CORPUS[gname]
-        for n in range(1, nmax + 1):
-            for shape in tok.all_shapes(n, g.decl):
+        for shape in tok.all_shapes_by_words(nmax, g.decl):
+            if True:
                 k = 0
                 for f in shape:
                     if f == "dd":
@@ -219,4 +219,4 @@ def run_job(job, build):
 def finish(results, jobs, build, out, tier, seed, wall):
     nmax = 3 if tier == "quick" else 4
     return finish_tok(PROP, results, jobs, build, out, tier, seed, wall, Oracle("help", 0), CORPUS,
-                      {"items": "1..=%d" % nmax, "grammars": len(GRAMMARS), "help_item_position": "every Short/Long word left of `--`"})
+                      {"argv_words": "1..=%d (up to twice as many items)" % nmax, "grammars": len(GRAMMARS), "help_item_position": "every Short/Long word left of `--`"})
